@@ -28,11 +28,32 @@ var registry = map[string]func() *check.Property{
 	"C20": C20,
 }
 
+// thoroughOps: mutation operators of the thorough tier, per property.
+var thoroughOps = map[string][]mutOp{
+	"C02": {mutUnsafeCtor, mutAsyncNext, mutDropLocksOf("subscriber"), mutDropLocksOf("subjects")},
+	"C03": {mutDropTeardown, mutDropLocksOf("subscription")},
+	"C06": {mutDropLocksOf("subscription")},
+	"C11": {mutDropLocksOf("connectable")},
+	"C05": {mutSwallowError},
+	"C08": {mutAsyncNext},
+	"C09": {mutCtxBackground},
+	"C10": {mutDropLocksOf("subjects")},
+	"C12": {mutHoistState},
+	"C13": {mutDropLocksOf("all-but-subscriber"), mutUnsafeCtor},
+	"C14": {mutDropTeardown},
+	"C15": {mutDropWait},
+}
+
 func ByID(id string) *check.Property {
-	if f := registry[id]; f != nil {
-		return f()
+	f := registry[id]
+	if f == nil {
+		return nil
 	}
-	return nil
+	p := f()
+	if ops := thoroughOps[id]; len(ops) > 0 {
+		p.Thorough = sweep(p, ops)
+	}
+	return p
 }
 
 func IDs() []string {
